@@ -1,4 +1,4 @@
 From Coq Require Import Extraction ExtrOcamlBasic.
 From PV Require Import Lib.ExtBase C09.Model.
 Extraction "model.ml" ext_base_z ext_base_n ext_base_nat ext_base_res ext_base_list
-  copyDecoded decodeLimit streamAlloc xrefObjects objStreamOK imageOK objectStreamDictWithLimits osdFullDecode rowGuard.
+  copyDecoded decodeLimit streamAlloc xrefObjects objStreamOK imageOK objectStreamDictWithLimits osdFullDecode rowGuard rlDecode ahxGate.
